@@ -345,7 +345,9 @@ OuterOps(S) ==
   \cup (IF "defer" \in Acts /\ ND > 0 THEN {[a |-> "defer", n |-> n] : n \in {1, 2, ND - 3, ND}} ELSE {})
   \cup (IF "maxclr" \in Acts THEN {[a |-> "maxclr", n |-> n] : n \in {1, 4, 5}} ELSE {})
   \cup (IF "wnew" \in Acts THEN {[a |-> "wnew", e |-> w, k |-> k, s |-> s, x |-> x] :
-                                   w \in 1..NW, k \in {"prep", "check"}, s \in {"none", "self", "next", "prev", "new"}, x \in {0}} ELSE {})
+                                   w \in 1..NW, k \in {"prep", "check"},
+                                   s \in {"none", "self", "next", "prev", "new"}
+                                          \cup (IF "wscr" \in Acts THEN {"add1", "act4", "del3"} ELSE {}), x \in {0}} ELSE {})
   \cup (IF "wfree" \in Acts THEN {[a |-> "wfree", e |-> w] : w \in 1..NW} ELSE {})
 
 (* act with ncalls only matters for signal events; avoid duplicates *)
@@ -462,6 +464,11 @@ WatchScript(S, w) ==
        [] w.s = "prev" -> IF kpos > 1 THEN [a |-> "wfree", e |-> samek[kpos - 1].id] ELSE NoOp
        [] w.s = "new" -> IF (w.id + 1) \notin WatchIds(S) /\ w.id + 1 <= NW
                          THEN [a |-> "wnew", e |-> w.id + 1, k |-> w.k, s |-> "none", x |-> 0] ELSE NoOp
+       \* a watcher that touches the base: schedules a 1-tick timer on event 3, activates event 4, deletes event 3.
+       \* The timeout the prepare watchers were told is still the one the loop waits with (st.tmo is not recomputed).
+       [] w.s = "add1" -> IF 3 \in Pool /\ S.ev[3].alloc THEN [a |-> "add", e |-> 3, t |-> 1] ELSE NoOp
+       [] w.s = "act4" -> IF 4 \in Pool /\ S.ev[4].alloc THEN [a |-> "act", e |-> 4, r |-> 2, n |-> 1] ELSE NoOp
+       [] w.s = "del3" -> IF 3 \in Pool /\ S.ev[3].alloc THEN [a |-> "del", e |-> 3] ELSE NoOp
        [] OTHER -> NoOp
 
 RunWatcher(phase, nextpc) ==
